@@ -13,9 +13,9 @@ import (
 )
 
 type c01Case struct {
-	Class string                 `json:"class"` // "canonical" or "accepted"
-	Origin string                `json:"origin,omitempty"`
-	Doc   map[string]interface{} `json:"doc"`
+	Class  string                 `json:"class"` // "canonical" or "accepted"
+	Origin string                 `json:"origin,omitempty"`
+	Doc    map[string]interface{} `json:"doc"`
 }
 
 // ctxSet normalises a top-level @context to a sorted list of strings when it
